@@ -94,7 +94,8 @@ End UpdateClauses.
 (* The accepted domain of UpdateSkinPartitions in closed form, on the state the caller has:
    triangles present, no corner 65535, partitions + triangles < 2^31, the dismember list (if any)
    aligned, and EITHER triParts current with every entry below the partition count (negative =
-   unassigned) OR triParts stale/empty and at least one partition, none of them with strips left. *)
+   unassigned) OR triParts stale/empty and no partition with strips left (no partition at all is fine: every
+   triangle is then unassigned). *)
 Definition ks_update_domain (sh : ks_shape) (k : ks_skin) : bool :=
   let s := kk_sp k in
   (kh_hastris sh
@@ -103,8 +104,7 @@ Definition ks_update_domain (sh : ks_shape) (k : ks_skin) : bool :=
    && (match kk_dis k with Some d => vlen d =? vlen (kp_parts s) | None => true end)
    && (if vlen (kh_tris sh) =? vlen (kp_tp s)
        then forallb (fun pj => (pj <? Z.of_N (vlen (kp_parts s)))%Z) (kp_tp s)
-       else negb (ks_isnil (kp_parts s))
-            && forallb (fun p => (kb_ns p =? 0) && (vlen (kb_tris p) <? 2147483648)) (kp_parts s)))%bool.
+       else forallb (fun p => (kb_ns p =? 0) && (vlen (kb_tris p) <? 2147483648)) (kp_parts s)))%bool.
 
 Theorem ks_update_domain_ok (sh : ks_shape) (k : ks_skin) :
   ks_update_domain sh k = true ->
@@ -118,10 +118,9 @@ Proof.
   - exists (kk_sp k). split.
     + apply ks_prepare_triparts_current. rewrite ks_map_rot_vlen. exact Heq.
     + unfold ks_update_accepts. rewrite Hhas, Hcase, Hdis, Hsmall, Hsize. rewrite Heq, N.eqb_refl. reflexivity.
-  - apply andb_true_iff in Hcase. destruct Hcase as [Hnn Hsf].
-    destruct (ks_prepare_triparts_regen (map ks_rot (kh_tris sh)) (kk_sp k)) as (s0 & E & Lp & Lm & Lt & Rg).
+  - rename Hcase into Hsf.
+    destruct (ks_prepare_triparts_regen (map ks_rot (kh_tris sh)) (kk_sp k)) as (s0 & E & Lp & Lm & Lt & Rg & _).
     + rewrite ks_map_rot_vlen. exact Hne.
-    + destruct (kp_parts (kk_sp k)); [discriminate|discriminate].
     + apply Forall_forall. intros p Hp. rewrite forallb_forall in Hsf. specialize (Hsf p Hp).
       apply andb_true_iff in Hsf. destruct Hsf as [H1 H2]. apply N.eqb_eq in H1. apply N.ltb_lt in H2.
       split; [exact H1|]. change (2 ^ 31) with 2147483648. exact H2.
@@ -150,20 +149,23 @@ Proof. destruct v; cbn; intros; try congruence; lia. Qed.
 (* ---------------------------------------------------------------------------------------- *)
 (* Refutations: the same statements without their hypotheses are false of the model. *)
 
-(* (a) no partition left, triParts to be regenerated: every triangle claims partition 0 and
-       partBones[0] does not exist *)
+(* (a) no partition left, triParts to be regenerated: every triangle is unassigned (-1), nothing to
+       rebuild (before the repair of GenerateTriPartsFromTrueTriangles every triangle claimed
+       partition 0 and partBones[0] did not exist) *)
 Definition ks_wit_nopart : ks_shape * ks_skin :=
   (ks_mkShape [(0, 1, 2)] true 3 false, ks_mkSkin (ks_mkSP 0 [] true []) (Some []) []).
 
-Lemma ks_update_without_partitions_faults :
-  ks_nf_update KFO3 (fst ks_wit_nopart) (snd ks_wit_nopart) = Fault.
-Proof. vm_compute. reflexivity. Qed.
+Lemma ks_update_without_partitions_ok :
+  ks_update_domain (fst ks_wit_nopart) (snd ks_wit_nopart) = true /\
+  ks_nf_update KFO3 (fst ks_wit_nopart) (snd ks_wit_nopart) = Ok (ks_mkSkin (ks_mkSP 0 [] true [(-1)%Z]) (Some []) []).
+Proof. split; vm_compute; reflexivity. Qed.
 
 (* the same state through the API: SetDefaultPartition, DeletePartitions {0}, UpdateSkinPartitions *)
-Lemma ks_default_delete_update_faults :
+Lemma ks_default_delete_update_ok :
   let sh := ks_mkShape [(0, 1, 2)] true 3 false in
   let k0 := ks_mkSkin (ks_mkSP 0 [] true []) (Some []) [] in
-  bind (ks_nf_delete KFO3 [0] (ks_nf_set_default KFO3 sh k0)) (ks_nf_update KFO3 sh) = Fault.
+  bind (ks_nf_delete KFO3 [0] (ks_nf_set_default KFO3 sh k0)) (ks_nf_update KFO3 sh)
+  = Ok (ks_mkSkin (ks_mkSP 0 [] true [(-1)%Z]) (Some []) []).
 Proof. vm_compute. reflexivity. Qed.
 
 (* (b) dismember list shorter than the partition list, and a split is needed *)
@@ -236,11 +238,11 @@ Proof.
   split; vm_compute; reflexivity.
 Qed.
 
-(* (d) a regenerated triParts reports a triangle that no partition holds as partition 0 *)
-Lemma ks_get_unassigned_as_zero :
+(* (d) a regenerated triParts reports a triangle that no partition holds as -1 (before the repair: 0) *)
+Lemma ks_get_unassigned_minus_one :
   let sh := ks_mkShape [(0, 1, 2); (2, 1, 3)] true 4 false in
   let p := kb_set_tt (kb_set_vm ks_pb0 [0; 1; 2]) [(0, 1, 2)] in
-  exists info k', ks_nf_get KFO3 sh (ks_mkSkin (ks_mkSP 1 [p] true []) (Some [(1, 0)]) []) = Ok (info, [0; 0]%Z, k').
+  exists info k', ks_nf_get KFO3 sh (ks_mkSkin (ks_mkSP 1 [p] true []) (Some [(1, 0)]) []) = Ok (info, [0; -1]%Z, k').
 Proof. eexists. eexists. vm_compute. reflexivity. Qed.
 
 (* ---------------------------------------------------------------------------------------- *)
